@@ -528,8 +528,10 @@ def drive(bindir, name, scs, wd, reset_ev, end_ev, timeout=1200, extra_args=None
             f.write(json.dumps({"ev": end_ev, "scenario": sid, "seq": 0, "th": 999}) + "\n")
         start = sid
         restarts += 1
-        if restarts > 300:
-            raise ToolError("driver %s keeps dying; giving up" % name)
+        if restarts > 150:
+            # every death is already in the trace as data; do not spend the time budget on hundreds more
+            log("NOTE driver %s died in more than 150 scenarios: the remaining %d scenarios are skipped" % (name, len(scs) - start))
+            break
     return tpath
 
 
